@@ -206,6 +206,8 @@ def h_alpha(h):
 
 
 from props.c18 import h_rebuild as _h_rebuild
+from props.c11 import h_trace as _h_trace
+import WallGo.freeEnergy as _FEmod
 import WallGo.interpolatableFunction as _IF
 
 HARNESSES = [
@@ -213,6 +215,12 @@ HARNESSES = [
     # InterpolatableFunction): after a re-trace they must be those of the new table
     HarnessDef("free-energy-table-rebuild", _h_rebuild, [dict(k=2)], [dict(k=2), dict(k=3)], max_paths=40, timeout_s=30,
                encodes=[_IF.InterpolatableFunction._interpolate, _IF.InterpolatableFunction.derivative], random_validation=1),
+    # "inside the range the pressure is minus the effective potential at the phase's minimum": the
+    # table the phase tracer hands to the spline holds, at every node (the starting node included),
+    # the potential AT the tabulated field values (harness shared with C11)
+    HarnessDef("free-energy-table-values", _h_trace, [dict(nf=1, paranoid=False, maxsteps=1)],
+               [dict(nf=1, paranoid=False, maxsteps=1), dict(nf=2, paranoid=True, maxsteps=1)], max_paths=30000, timeout_s=30,
+               encodes=[_FEmod.FreeEnergy.tracePhase], random_validation=0, concrete_alarms=False, feas_timeout_ms=300),
     HarnessDef("phase", h_phase, [dict(phase="High"), dict(phase="Low")], max_paths=40,
                timeout_s=60, axioms=[axioms.pow_axioms],
                encodes=[TH.Thermodynamics.setExtrapolate] + [
